@@ -531,4 +531,45 @@ theorem f34F_value_preserved (s : Text) (v : F34F) (h : F34F.parse s = .ok v) :
   · cases h
   · cases h
 
+/-! ### the shortest form is a normal form; "same number" is an equivalence -/
+
+/-- a normal form stays as it is -/
+theorem normAux_fixed (m s : Nat) (h : s = 0 ∨ m % 10 ≠ 0) : normAux m s = ⟨m, s⟩ := by
+  cases s with
+  | zero => rfl
+  | succ k =>
+    unfold normAux
+    rcases h with h | h
+    · cases h
+    · simp [h]
+
+/-- the normal form has no trailing zero to drop -/
+theorem normAux_normal (m s : Nat) : (normAux m s).scale = 0 ∨ (normAux m s).mant % 10 ≠ 0 := by
+  induction s generalizing m with
+  | zero => left; rfl
+  | succ k ih =>
+    unfold normAux
+    by_cases h : m % 10 = 0
+    · have hb : (m % 10 == 0) = true := by simp [h]
+      simp only [hb, if_true]; exact ih (m / 10)
+    · have hb : (m % 10 == 0) = false := by simp [h]
+      simp only [hb, Bool.false_eq_true, if_false]; right; exact h
+
+/-- **normalising is idempotent**: writing a value in its shortest form and reading that gives the same shortest form -/
+theorem normalize_idem (d : Dec) : d.normalize.normalize = d.normalize := by
+  unfold Dec.normalize
+  exact normAux_fixed _ _ (normAux_normal d.mant d.scale)
+
+/-- the equivalence "same number" is reflexive, symmetric and transitive (so `normalize_eqv` chains) -/
+theorem eqv_refl (a : Dec) : a.eqv a := rfl
+theorem eqv_symm (a b : Dec) (h : a.eqv b) : b.eqv a := by unfold Dec.eqv at *; exact h.symm
+theorem eqv_trans (a b c : Dec) (h1 : a.eqv b) (h2 : b.eqv c) : a.eqv c := by
+  unfold Dec.eqv at *
+  have hb : 0 < 10 ^ b.scale := Nat.pow_pos (by decide)
+  apply Nat.eq_of_mul_eq_mul_right hb
+  calc a.mant * 10 ^ c.scale * 10 ^ b.scale = (a.mant * 10 ^ b.scale) * 10 ^ c.scale := Nat.mul_right_comm _ _ _
+    _ = (b.mant * 10 ^ a.scale) * 10 ^ c.scale := by rw [h1]
+    _ = (b.mant * 10 ^ c.scale) * 10 ^ a.scale := Nat.mul_right_comm _ _ _
+    _ = (c.mant * 10 ^ b.scale) * 10 ^ a.scale := by rw [h2]
+    _ = c.mant * 10 ^ a.scale * 10 ^ b.scale := Nat.mul_right_comm _ _ _
 end SwiftMT.Props.C06
